@@ -670,6 +670,7 @@ class Problem:
             assert isinstance(debug, bool)
 
         self._obj = obj
+        self._n_eval = 0
         self._linear = linear
         self._nonlinear = nonlinear
         if callback is not None:
@@ -806,6 +807,7 @@ class Problem:
         # Evaluate the objective and nonlinear constraint functions.
         x = np.asarray(x, dtype=float)
         x_full = self.build_x(x)
+        self._n_eval += 1
         fun_val = self._obj(x_full)
         cub_val, ceq_val = self._nonlinear(x_full)
         maxcv_val = self.maxcv(x, cub_val, ceq_val)
@@ -958,7 +960,7 @@ class Problem:
         int
             Number of function evaluations.
         """
-        return self._obj.n_eval
+        return self._n_eval
 
     @property
     def fun_name(self):
